@@ -39,7 +39,7 @@ COMPONENTS = {
              "cutplace.rowio", "csv", "io stack", "zipfile", "xlrd"],
     "stub": ["SimFS (ENOENT, EISDIR) / SimRaw", "peers"],
 }
-PROBES_REQUIRED = ["limit-with-header", "cid:valid", "cid:rejected", "cid:missing", "cid:directory", "file:accepted", "file:rejected-field",
+PROBES_REQUIRED = ["file-name-with-wildcard-characters", "limit-with-header", "cid:valid", "cid:rejected", "cid:missing", "cid:directory", "file:accepted", "file:rejected-field",
                    "file:rejected-unique", "file:sibling", "file:missing", "file:directory", "file:io-error", "until:absent", "until:-1",
                    "until:0", "until:k", "args-malformed", "rejected-and-unreadable-in-one-list", "exit:0", "exit:1",
                    "exit:3", "three-files"]
@@ -92,7 +92,9 @@ def generate(seed, tier):
     rng.shuffle(order2)
     return {"io": simfs.IoConfig.draw(swarm), "format": fmt, "cid_kind": swarm.choice(CID_KINDS), "files": files,
             "until": until, "k": rng.randint(1, 4), "order2": order2, "header": swarm.choice([0, 0, 1]), "end_check": swarm.random() < 0.4,
-            "cid_defect": swarm.choice(["unknown-type", "duplicate-field", "check-before-field"])}
+            "cid_defect": swarm.choice(["unknown-type", "duplicate-field", "check-before-field"]),
+            # a file name is a name, whatever characters it is made of
+            "name_style": swarm.choice(["plain", "plain", "plain", "brackets", "star", "question"])}
 
 
 def _call_main(argv):
@@ -144,6 +146,8 @@ def execute(scenario):
         return result
 
     fmt = scenario["format"]
+    if scenario.get("name_style", "plain") != "plain" and scenario["files"]:
+        result.probe("file-name-with-wildcard-characters")
     spec = _spec(fmt, scenario.get("header", 0), scenario.get("end_check", False))
     cid_kind = scenario["cid_kind"]
     until = scenario["until"]
@@ -155,7 +159,8 @@ def execute(scenario):
             fs.store("cid.csv", lib.render_delimited(_cid_rows(scenario), ",", '"', "\n").encode("utf-8"))
         paths = []
         for number, entry in enumerate(scenario["files"]):
-            path = tabular.data_path(spec, "data%d" % number)
+            base = {"brackets": "data[%d]", "star": "all*%d", "question": "data?%d"}.get(scenario.get("name_style"), "data%d")
+            path = tabular.data_path(spec, base % number)
             paths.append(path)
             if entry["kind"] == "directory":
                 fs.mkdir(path)
@@ -276,6 +281,8 @@ def candidates(scenario):
         yield candidate
     if scenario["until"] != "absent":
         yield lib.with_value(scenario, ["until"], "absent")
+    if scenario.get("name_style", "plain") != "plain":
+        yield lib.with_value(scenario, ["name_style"], "plain")
     if scenario.get("header"):
         yield lib.with_value(scenario, ["header"], 0)
     if scenario.get("end_check"):
